@@ -7,7 +7,7 @@ from collections import Counter
 from hypothesis import strategies as st
 
 from vf import drive, env, gen
-from vf.codec_ref import INTERNAL_MAX
+from vf.codec_ref import INTERNAL_MAX, ref_verdict
 from vf.model import RefController
 from vf.runner import Outcome, fail
 
@@ -18,7 +18,7 @@ RULE = (
     "differential: two gateways pinned to an (older, newer) pair of protocol versions - all 10 ordered pairs - start from the same generated "
     "registry (incl. sleeping nodes and stored values) and receive the same history (<=25 ops) of lines and application sends of set commands. "
     "The alphabet is every internal and stream type of the OLDER spec table with payloads that exercise the handlers, arbitrary "
-    "presentation/set/req types, id requests, malformed lines; version reports and gateway (node 0) presentations are excluded because they "
+    "presentation/set/req types, id requests, malformed and boundary lines from C02's field grammar; version reports and gateway (node 0) presentations are excluded because they "
     "re-pin a gateway; for pairs ending in 2.2 the heartbeat response (the stated exception) is excluded; across 1.x -> 2.x gateway-ready is "
     "excluded and any op that the reference model says refers to an unknown node or child at that point is skipped. Oracle, step by step: "
     "same outcome class, same error attributes (node id / child id, and for unsupported messages the message, not the version text), same "
@@ -41,9 +41,11 @@ def budgets(tier: str) -> dict:
 
 
 def _ops(old: str, new: str):
-    node = st.sampled_from((1, 2, 3, 1, 2))
+    node = st.sampled_from((1, 2, 1, 2, 1, 2, 3))
+    from vf.props import c02
+
     child = st.sampled_from((0, 1))
-    vtype = st.one_of(st.sampled_from((0, 2, 3, 47, 16)), st.integers(0, 56))
+    vtype = st.one_of(st.sampled_from((0, 2)), st.sampled_from((0, 2)), st.sampled_from((0, 2)), st.sampled_from((3, 47)), st.integers(0, 56))
     ptype = st.one_of(st.sampled_from((0, 3, 6, 17, 18, 23)), st.integers(0, 39))
     value = gen.short_payloads
     excluded = {2}
@@ -61,13 +63,20 @@ def _ops(old: str, new: str):
         st.builds(lambda n, c, t, p: f"{n};{c};1;0;{t};{p}\n", node, child, vtype, value),
         st.builds(lambda n, c, t, p: f"{n};{c};1;0;{t};{p}\n", node, child, vtype, value),
         st.builds(lambda n, c, t: f"{n};{c};2;0;{t};\n", node, child, vtype),
+        st.builds(lambda n, c, t: f"{n};{c};2;0;{t};\n", node, child, vtype),
+        st.builds(lambda n, c, t: f"{n};{c};2;0;{t};\n", node, child, vtype),
         st.builds(lambda n, t, p: f"{n};255;3;0;{t};{p}\n", node, itype, ipayload),
         st.builds(lambda n, t, p: f"{n};255;3;0;{t};{p}\n", node, itype, ipayload),
         st.builds(lambda n, t, p: f"{n};255;3;0;{t};{p}\n", node, itype, ipayload),
         st.builds(lambda n, t: f"{n};255;4;0;{t};ff\n", node, st.integers(0, 5)),
         st.sampled_from(("255;255;3;0;3;\n", "4;9;3;0;3;\n", "junk\n", "1;2\n", "1;255;1;0;0;1\n")),
+        # lines around the codec's accept/reject boundary: every version must draw it at the same place
+        st.builds(lambda n, c, cmd, t: f"{n};{c};{cmd};0;{t};1\n", node, st.sampled_from((0, 1, 255)), st.sampled_from((0, 1, 2, 3, 4, 5)), st.sampled_from((0, 3, 4, 5))),
+        c02._grammar_line().filter(lambda l: ref_verdict(l)["verdict"] == "reject"),
     )
-    return st.lists(st.one_of(lines.map(lambda l: ["rx", l]), lines.map(lambda l: ["rx", l]), lines.map(lambda l: ["rx", l]), send), min_size=6, max_size=25)
+    req = st.builds(lambda n, c, t: ["rx", f"{n};{c};2;0;{t};\n"], node, child, st.sampled_from((0, 2)))
+    wake = st.builds(lambda n, t: ["rx", f"{n};255;3;0;{t};5\n"], node, st.sampled_from([t for t in (22, 32) if t in internal_types] or [18 if 18 in internal_types else 9]))
+    return st.lists(gen.weighted((6, lines.map(lambda l: ["rx", l])), (3, send), (1, req), (1, wake)), min_size=8, max_size=25)
 
 
 @st.composite
@@ -80,7 +89,7 @@ def _registry(draw) -> dict:
             children[str(child)] = {"child_id": child, "child_type": 3, "description": "", "values": values}
         reg[str(node)] = {
             "node_id": node, "node_type": 17, "protocol_version": "2.0", "sketch_name": "", "sketch_version": "", "battery_level": 0,
-            "heartbeat": 0, "sleeping": draw(st.booleans()), "children": children, "reboot": draw(st.sampled_from((False, False, True))),
+            "heartbeat": 0, "sleeping": draw(st.sampled_from((True, True, False))), "children": children, "reboot": draw(st.sampled_from((False, False, True))),
         }
     return reg
 
@@ -147,7 +156,7 @@ def run_case(case: dict) -> Outcome:
                 info["parked"] = True
             if op[0] == "rx":
                 parts = op[1].split(";")
-                if len(parts) >= 6 and parts[2] == "3" and parts[4].lstrip("-").isdigit():
+                if len(parts) >= 6 and parts[2] == "3" and parts[4].isdigit():
                     info["itypes"].add(int(parts[4]))
             kind = "send" if op[0] == "send" else drive._msgkind(shadow.rx(op[1]).fields if shadow else RefController(old).rx(op[1]).fields)
             if d_old != d_new:
